@@ -4,7 +4,7 @@
    stay the extracted inductives (2^64 does not fit OCaml's int). *)
 From Coq Require Import Extraction ExtrOcamlBasic.
 From PP Require Import Base.Bytes Base.GoResult Base.Num Model.Types Model.Stack Model.Bucket Model.Names
-  Spec.BucketSpec Spec.NamesSpec Base.BytesX Model.Reader Model.Lines Model.FuncInit Model.ParseArgs Model.Scan Model.ScanSnapshot Model.ScanSeq Model.UI Model.Process Model.Html Model.Paths Model.Augment Model.Web Model.Alias Model.HtmlDoc Model.Source Model.HtmlPage.
+  Spec.BucketSpec Spec.NamesSpec Base.BytesX Model.Reader Model.Lines Model.FuncInit Model.ParseArgs Model.Scan Model.ScanSnapshot Model.ScanSeq Model.UI Model.Process Model.Html Model.Paths Model.Augment Model.Web Model.Alias Model.HtmlDoc Model.Source Model.HtmlPage Spec.Regex Spec.RegexDefs.
 
 Extraction Language OCaml.
 Extraction "model.ml"
@@ -18,4 +18,6 @@ Extraction "model.ml"
   scan_snapshot scan ss0 func_init parse_args match_file match_func match_routine_header read_line reader0 state_index scan_seq pp_run contains rune_count sig_attrs href_attr html_escape src_url pkg_url func_class
   guess_paths augment_call handler status_class capture alias_graph is_ptr_value all_scalars has_suffix render_content_buckets render_content_goroutines
   render_page_buckets render_page_goroutines
-  line_offsets source_types wf_file.
+  line_offsets source_types wf_file
+  re_find re_all match_minutes match_unavail match_created match_race_op match_race_prev match_race_goroutine
+  find_module find_version match_method_symbol.
